@@ -102,7 +102,32 @@ static void order_case(void) {
   int steps = 4 + (int)rnd(8);
   for (int s = 0; s < steps; ++s) {
     unsigned k = rnd(10);
-    if (k < 4) { order_mutate(); for (int i = 0; i < 3; ++i) emit_check(&o[i]); }
+    if (k < 4 && chance(35)) {
+      /* two external representations of one polynomial; the order changes; eq / cmp is the FIRST call that sees them
+         (operands are printed from tokens taken before the change: printing re-orders an external polynomial) */
+      int i = chance(50) ? 0 : 2;
+      lp_polynomial_t* twin = rebuild(o[i].p, r); lp_polynomial_set_external(twin);
+      if (chance(30)) { lp_polynomial_t* one = lp_polynomial_alloc(); lp_integer_t c; lp_integer_construct_from_int(lp_Z, &c, 1);
+        lp_polynomial_construct_simple(one, octx[r], &c, hp_x[rnd(NVARS)], rnd(2)); lp_polynomial_add(twin, twin, one); lp_polynomial_delete(one); lp_integer_destruct(&c); }
+      sb_reset(); sb_poly(o[i].p); char* tp = strdup(sb_buf);
+      sb_reset(); sb_poly(twin); char* tq = strdup(sb_buf);
+      order_mutate();
+      int swap = chance(50);
+      const lp_polynomial_t* A = swap ? twin : o[i].p; const lp_polynomial_t* B = swap ? o[i].p : twin;
+      int which = (int)rnd(2);
+      int e = -1, c = 0;
+      if (which == 0) { e = lp_polynomial_eq(A, B); c = lp_polynomial_cmp(A, B); } else { c = lp_polynomial_cmp(A, B); e = lp_polynomial_eq(A, B); }
+      int ordA = lp_polynomial_check_order(A), ordB = lp_polynomial_check_order(B);
+      size_t hA = lp_polynomial_hash(A), hB = lp_polynomial_hash(B);
+      sb_begin("ord", "eqhash"); sb_sp(); hp_ring_token(ri); sb_sp(); sb_str(swap ? tq : tp); sb_sp(); sb_str(swap ? tp : tq); sb_arrow();
+      sb_sp(); sb_long(e); sb_sp(); sb_ulong(hA); sb_sp(); sb_ulong(hB); sb_sp(); sb_long(sgn_of(c)); sb_emit();
+      sb_begin("ord", "cleaned"); sb_sp(); sb_long(which); sb_arrow(); sb_sp(); sb_long(ordA); sb_sp(); sb_long(ordB); sb_emit();
+      free(tp); free(tq);
+      o[i].L = cur;
+      lp_polynomial_delete(twin);
+      for (int t = 0; t < 3; ++t) emit_check(&o[t]);
+    }
+    else if (k < 4) { order_mutate(); for (int i = 0; i < 3; ++i) emit_check(&o[i]); }
     else if (k < 6) { /* arithmetic under the current order */
       int i = (int)rnd(3), j = (int)rnd(3);
       if (!o[i].external) reorder(&o[i]);
